@@ -138,28 +138,32 @@ func runWorkers(e *Env, ops []Op, plan [][]int, iters int, timeout time.Duration
 	close(start)
 	done := make(chan struct{})
 	go func() { wg.Wait(); close(done) }()
-	select {
-	case <-done:
-		return true
-	case <-time.After(timeout):
-	}
-	// a second chance: progress may just be slow under -race
+	// Watchdog loop: every `timeout` look at each goroutine's (operation, start time) slot. A call is taken
+	// to be blocked only when the very same call has been in flight over THREE consecutive looks (>= 2*timeout
+	// without returning) — the run may legitimately take long, single calls are microseconds.
 	prev := make([]int64, len(slots))
-	for g := range slots {
-		prev[g] = slots[g].since.Load()
-	}
-	select {
-	case <-done:
-		return true
-	case <-time.After(timeout):
-	}
+	strikes := make([]int, len(slots))
 	blocked := map[string]int64{}
-	for g := range slots {
-		oi := slots[g].op.Load()
-		if oi != 0 && slots[g].since.Load() == prev[g] {
-			n := ops[oi-1].Name()
-			if t, ok := blocked[n]; !ok || slots[g].since.Load() < t {
-				blocked[n] = slots[g].since.Load()
+	for len(blocked) == 0 {
+		select {
+		case <-done:
+			return true
+		case <-time.After(timeout):
+		}
+		for g := range slots {
+			oi := slots[g].op.Load()
+			since := slots[g].since.Load()
+			if oi != 0 && since == prev[g] {
+				strikes[g]++
+			} else {
+				strikes[g] = 0
+			}
+			prev[g] = since
+			if strikes[g] >= 2 {
+				n := ops[oi-1].Name()
+				if t, ok := blocked[n]; !ok || since < t {
+					blocked[n] = since
+				}
 			}
 		}
 	}
@@ -182,11 +186,6 @@ func runWorkers(e *Env, ops []Op, plan [][]int, iters int, timeout time.Duration
 		}
 		seenType[typ] = true
 		fmt.Fprintf(out.W, "blocked %s\n", b.n)
-	}
-	if len(bl) == 0 {
-		fmt.Fprintf(out.W, "note watchdog fired but no call was in flight (slow run)\n")
-		<-done
-		return true
 	}
 	return false
 }
@@ -459,27 +458,31 @@ func runLin(goroutines int, timeout time.Duration, out *Out, body func(g int, se
 	}
 	done := make(chan struct{})
 	go func() { wg.Wait(); close(done) }()
-	for round := 0; round < 2; round++ {
+	prev := make([]int64, goroutines)
+	strikes := make([]int, goroutines)
+	seen := map[string]bool{}
+	for len(seen) == 0 {
 		select {
 		case <-done:
 			return true
 		case <-time.After(timeout):
 		}
-	}
-	seen := map[string]bool{}
-	nmu.Lock()
-	for g := range slots {
-		if oi := slots[g].op.Load(); oi != 0 && time.Now().UnixNano()-slots[g].since.Load() > int64(timeout) {
-			if !seen[names[oi-1]] {
+		nmu.Lock()
+		for g := range slots {
+			oi := slots[g].op.Load()
+			since := slots[g].since.Load()
+			if oi != 0 && since == prev[g] {
+				strikes[g]++
+			} else {
+				strikes[g] = 0
+			}
+			prev[g] = since
+			if strikes[g] >= 2 && !seen[names[oi-1]] {
 				seen[names[oi-1]] = true
 				fmt.Fprintf(out.W, "blocked %s\n", names[oi-1])
 			}
 		}
-	}
-	nmu.Unlock()
-	if len(seen) == 0 {
-		<-done
-		return true
+		nmu.Unlock()
 	}
 	return false
 }
